@@ -6,42 +6,55 @@ PROP = 'C03'
 PROPS_MODULES = ['LA.Props.C03']
 GEN = ['Limits', 'UuTables']
 ASSUMPTIONS = [
-    'zlib, libbz2, liblzma, libzstd, liblz4 and libarchive\'s own LZW (compress) are parameters: '
-    'decode(encode x) = x, streaming output independent of input chunking, self-delimiting streams; '
-    'spot-checked against the real libraries by every flt case, not proved',
+    'zlib, libbz2, liblzma, libzstd, liblz4 and libarchive\'s own LZW (compress) are parameters: decode(encode x) = x, '
+    'streaming output independent of input chunking, self-delimiting streams (inflate (deflate x ++ r) = (x, r)); '
+    'the streaming laws are LA.Drive.Lawful; spot-checked against the real libraries by every flt case, not proved',
     'malloc never fails',
-    'uu/b64 theorems: bytes are < 256; the name option is non-empty printable ASCII (0x20..0x7e) and the '
-    '"begin" line plus two encoded lines fit into UUENCODE_BID_MAX_READ; the first window the filter sees '
-    'extends beyond the "begin" line (the bidder has buffered at least two more lines by then)',
-    'every window handed out by __archive_read_filter_ahead is a prefix of the unconsumed stream at least as '
-    'long as requested (LA.C05.window_is_stream_prefix); the theorems quantify over all such windows',
+    'uu/b64 theorems: bytes are < 256; the name option is non-empty printable ASCII (0x20..0x7e) and the "begin" line '
+    'fits UUENCODE_MAX_LINE_LENGTH (NameOk); the first window uudecode_filter_read sees reaches beyond the "begin" line '
+    '(the bidder has buffered at least that line and the next one by then; a window that ends exactly after the "begin" '
+    'line with nothing decoded makes the filter return 0 = end of data)',
+    'every window handed out by __archive_read_filter_ahead is a prefix of the unconsumed stream at least as long as '
+    'requested and does not shrink while nothing is consumed (LA.C05.window_is_stream_prefix); the read-side theorems '
+    'quantify over all such window sequences',
+    'the gzip reader model looks at the whole remaining stream at once (optional header fields longer than '
+    'MAX_FILENAME_LENGTH / MAX_COMMENT_LENGTH are rejected by the C depending on the window; not modelled)',
 ]
 TRUSTED = ['for codec-backed filters the Lean side predicts only the identity law (decoded = original, same filter '
            'codes in the same order); the compressed bytes themselves are copied from the implementation\'s line',
-           'lz4 frame/block framing and xz/lzip/zstd/bzip2 framing are not modelled']
+           'lz4 frame/block framing and xz/lzip/zstd/bzip2 framing are not modelled (identity differential only)',
+           'the read filter\'s four lookup tables and the base64 alphabet are used through closed forms; theorems '
+           'cls_table, uuchar_table, b64ok_table, b64num_table, ch_table (re-checked on every build) state that the '
+           'tables extracted from the C are exactly these closed forms',
+           'harness probe psig: "some read bidder claims the plain payload" is decided by running the real bidders']
 MANIFEST = {
     'text': 'partial: Lean theorems over byte-exact models of the two encoders libarchive implements itself and of '
             'their common read filter (archive_write_add_filter_uuencode.c, _b64encode.c, '
-            'archive_read_support_filter_uu.c; LBYTES, alphabets, lookup tables and limits extracted from the C): '
-            'the written stream does not depend on how the input is cut into writes (hold buffer + bs flush loop), '
-            'every line is at most 76+1 / 61+1 bytes, the bidder recognises the output for every sequence of '
-            'read-ahead windows, and decoding returns exactly the input for every sequence of windows '
-            '(uu_roundtrip, b64_roundtrip).  drive_loop_complete: the avail_in/avail_out driver shared by the '
-            'gzip/bzip2/xz/zstd write filters emits exactly the codec output and the tail on close for every '
-            'chunking and output-buffer size (codec abstract).  gzip member framing as libarchive writes and '
-            'parses it (header, 8-byte trailer consumed but not verified): gzip_frame_roundtrip, multi_member, '
-            'with inflate/deflate as parameters.  Tied to the C by the flt engine: real write-filter stacks '
-            '(<= 3, all ten filters, options at their borders, write chunkings, read block sizes 1..1 MiB) into '
-            'the real reader under ASan/UBSan; uu/b64 compared byte-exactly with the model incl. the windows of '
-            'the real read-ahead (LA.RA); multi-member concatenation for gzip, bzip2, xz, lzip, zstd, lz4.',
+            'archive_read_support_filter_uu.c; LBYTES, alphabet, lookup tables, limits, begin/trailer literals '
+            'extracted from the C): the written stream does not depend on how the input is cut into writes nor on '
+            'bytes_per_block (hold buffer + bs flush loop: uu_/b64_encode_chunking_independent), lines are at most '
+            '61+1 / 76+1 bytes, the read bidder recognises the output for every behaviour of the read-ahead window '
+            '(bidder_recognises_own_output, incl. the empty file), and uudecode returns exactly the input for every '
+            'chunking of the writes and every sequence of read windows (uu_roundtrip, b64_roundtrip). '
+            'drive_loop_complete: the avail_in/avail_out driver shared by the gzip/bzip2/xz/zstd write filters emits '
+            'header ++ comp(all writes) ++ trailer for every chunking and output-buffer size (codec abstract, laws '
+            'explicit). gzip member framing as libarchive writes and parses it (10-byte header + optional fields on '
+            'the read side, 8-byte trailer consumed but not verified): gzip_frame_roundtrip, multi_member, '
+            'gzip_filter_roundtrip with inflate/deflate as parameters. Tied to the C by the flt engine: real '
+            'write-filter stacks (<= 3, all ten filters, options at their borders, write chunkings down to 1 byte, '
+            'read block sizes 1..1 MiB) into the real reader under ASan/UBSan/LSan; uu/b64 compared byte-exactly with '
+            'the model, the reader model being driven through LA.RA with the same read block size; gzip header/trailer '
+            'bytes and hand-made members with optional header fields; multi-member concatenation for gzip, bzip2, xz, '
+            'lzip, zstd, lz4; block-size borders (LBYTES, 64 KiB buffers, lz4 blocks).',
     'note': 'For gzip, bzip2, xz, lzma, lzip, zstd, lz4 and compress the differential is against the statement of '
-            'the property itself with the codec as an assumed parameter (decoded = original; codes in order): no '
-            'Lean model of the codecs or of the lz4/xz/lzip/zstd/bzip2 framing exists. Reading filters enabled '
-            '"all" with a payload that starts with a compression signature is the documented exception and is '
-            'only run for crashes. Known open findings: zstd long=28..31 (reader window limit), uuencode name '
-            'with a non-ASCII byte.',
-    'technique': 'Lean 4 proof (induction over write chunkings and read windows, invariants of the hold buffer and '
-                 'of the carried partial line; abstract streaming-codec refinement) + model/C differential correspondence',
+            'the property itself with the codec as an assumed parameter (decoded = original; codes in order): there is '
+            'no Lean model of the codecs or of the lz4/xz/lzip/zstd/bzip2 framing. Reading with all filters enabled a '
+            'payload that some bidder claims is the documented exception and is only run for crashes. Open findings '
+            '(known_findings.json): zstd long=28..31 cannot be read back (reader window limit); uuencode/b64encode '
+            'name with a byte outside 0x20..0x7e is not recognised. Eight defects were repaired in the repo (fix: commits).',
+    'technique': 'Lean 4 proof (induction over write chunkings and read windows; invariants of the hold buffer and of '
+                 'the carried partial line; abstract streaming-codec refinement with a ranking function) + model/C '
+                 'differential correspondence',
 }
 
 CODEC = ['gzip', 'bzip2', 'xz', 'lzma', 'lzip', 'zstd', 'lz4', 'compress']
@@ -144,7 +157,7 @@ class Flt(Engine):
     timeout = 900
 
     def gen(self, rng, tier):
-        nrand = 330 if tier == 'quick' else 6000
+        nrand = 330 if tier == 'quick' else 2400
         # 1. every single filter: empty, one byte, a border size, defaults and bordered options
         for f in ALL:
             for pl in ('hex:-', 'hex:00', 'gen:rnd:%d:%d' % (rng.choice([44, 45, 46, 56, 57, 58]), rng.randrange(999))):
@@ -189,7 +202,7 @@ class Flt(Engine):
             yield Case(f'pad-{f}', ['rt %s - %s all %s 10240 %s' % (f, pl, rng.choice(['-/-', '512/-', '-/512']), rng.choice(['exact', 'all']))])
         # 4. multi-member streams
         for f in MULTI:
-            for _ in range(3 if tier == 'quick' else 40):
+            for _ in range(3 if tier == 'quick' else 25):
                 pa, _ = payload(rng, tier, big_ok=False); pb, _ = payload(rng, tier, big_ok=False)
                 yield Case(f'mm-{f}', ['mm %s %s %s %s %s %d %s' % (
                     f, ';'.join(gen_opts(rng, f)) or '-', pa, ';'.join(gen_opts(rng, f)) or '-', pb,
@@ -202,7 +215,7 @@ class Flt(Engine):
             yield Case('kf-name', ['rt %s %s:name=%s gen:rnd:%d:%d all -/1 %d %s' % (f, f, nm, rng.choice([0, 1, 45, 100]), rng.randrange(99), rng.choice([7, 10240]), rng.choice(['exact', 'all']))])
         # 4c. hand-made gzip members: header with any subset of the optional fields, zlib's deflate of the
         #     payload, an arbitrary 8-byte trailer (the read filter consumes it without verifying it)
-        for i in range(40 if tier == 'quick' else 600):
+        for i in range(40 if tier == 'quick' else 400):
             flags = rng.choice([0, 0, 2, 4, 8, 16, 4 | 8, 8 | 16, 2 | 4 | 8 | 16, rng.randrange(32)])
             h = [0x1f, 0x8b, 8, flags] + [rng.randrange(256) for _ in range(4)] + [rng.choice([0, 2, 4]), rng.choice([3, 0, 255])]
             if flags & 4:
@@ -220,7 +233,7 @@ class Flt(Engine):
         # 5. payloads that start with a compression signature (documented exception):
         #    exactly-those-filters must still round-trip; "all" is run only for crashes (mode allx)
         sig = list(SIGS)
-        for i in range(30 if tier == 'quick' else 400):
+        for i in range(30 if tier == 'quick' else 250):
             f = rng.choice(ALL)
             s = rng.choice([k for k in sig if k != f and not (k == 'uu' and f in TEXT)])
             tail = 'gen:%s:%d:%d:%s' % (rng.choice(['rnd', 'zero', 'text']), rng.choice([0, 1, 50, 3000]), rng.randrange(9999), SIGS[s])
